@@ -30,6 +30,8 @@ ALL_FEATURES = frozenset({
     "const_cmp",                    # comparison of two compile-time constants used as a condition
     "cmp_init",                     # comparison directly as initialiser / assigned value
     "chain_assign",                 # a = b = e / a = b += e with e reading a or b (two distinct objects)
+    "unbraced",                     # single-statement if/else arms and loop bodies without braces
+    "macro",                        # QEMU bitops macros (extract/sextract/deposit/bswap) as expressions and arguments
 })
 
 # frozen feature list used by the static checks C10-C12 (explicit: later additions to ALL_FEATURES do not leak in)
@@ -371,6 +373,8 @@ def assign_stmt(draw, env, depth, allow_hybrid):
         cands = [n for n in sorted(env.vars) if not n.startswith("__")]
         if compound and "compound_assign_narrow" not in f:
             cands = [n for n in cands if env.vars[n][1] >= 32]
+        elif compound and any(env.vars[n][1] < 32 for n in cands) and draw(st.booleans()):
+            cands = [n for n in cands if env.vars[n][1] < 32]
         if not cands:
             compound = False
             cands = [n for n in sorted(env.vars) if not n.startswith("__")]
@@ -412,6 +416,19 @@ def assign_stmt(draw, env, depth, allow_hybrid):
                 op2 = draw(st.sampled_from(["+=", "-=", "^=", "|=", "&="]))
             return ("expr", ("assign", "=", lhs, ("assign", op2, lhs2, rhs)))
     return ("expr", ("assign", "=", lhs, rhs_() if cmp_rhs else draw(expr(env, depth, allow_hybrid))))
+
+
+def _maybe_unbrace(draw, f, blk, then_with_else=False):
+    """`{ s; }` -> `s;` for a single statement that C allows without braces (never a declaration; no `if` in front
+    of an else: that is the dangling-else shape)"""
+    if "unbraced" not in f or blk is None or blk[0] != "block" or len(blk[1]) != 1:
+        return blk
+    s = blk[1][0]
+    if s[0] not in ("expr", "store", "jump", "empty"):
+        # never a declaration; a nested if / for is kept in braces: `if (a) if (b) x; else y;` is the dangling-else
+        # shape of the listed finding KF-C17-dangling-else-binds-to-outer-if (excluded by construction)
+        return blk
+    return s if draw(st.integers(0, 2)) == 0 else blk
 
 
 @st.composite
@@ -459,6 +476,14 @@ def stmt(draw, env, depth, nest):
             if draw(st.integers(0, 3)) == 0:
                 el = el[1][0] if el[1][0][0] == "if" else el
         env.vars = saved      # variables first assigned inside an arm are not readable afterwards
+        th = _maybe_unbrace(draw, f, th, then_with_else=el is not None)
+        el = _maybe_unbrace(draw, f, el)
+        if "unbraced" in f and "hyb_unused_stmt" in f:
+            # an arm that is nothing but a value-unused hybrid statement, without braces: if (c) v++; else w--;
+            if draw(st.integers(0, 3)) == 0:
+                th = _hyb_stmt(draw, env)
+            if el is not None and draw(st.integers(0, 3)) == 0:
+                el = _hyb_stmt(draw, env)
         return ("if", c, th, el)
     if k == "for":
         cnt = draw(st.sampled_from(["i", "j", "k"]))
@@ -481,6 +506,13 @@ def stmt(draw, env, depth, nest):
         step = draw(st.sampled_from([("post", "++", ("var", cnt)), ("assign", "+=", ("var", cnt), num(1)),
                                      ("assign", "=", ("var", cnt), ("bin", "+", ("var", cnt), num(1)))]))
         cond = ("bin", "<", ("var", cnt), ("cast", (False, 32), bound))
+        body = _maybe_unbrace(draw, f, body)
+        if "unbraced" in f and "hyb_unused_stmt" in f and draw(st.integers(0, 3)) == 0:
+            env.vars[cnt] = (False, 32)     # the body may read the counter
+            body = _hyb_stmt(draw, env, protect={cnt}, reads=cnt)
+            env.vars = saved
+            if draw(st.booleans()):
+                step = ("post", "++", ("var", cnt))
         if newdecl:
             return ("block", [init, ("for", None, cond, step, body)]) if False else ("for", init, cond, step, body)
         return ("for", init, cond, step, body)
@@ -522,12 +554,29 @@ def stmt(draw, env, depth, nest):
         dst = ("opnd", draw(st.sampled_from(env.dsts + env.rws)))
         return ("expr", ("assign", "=", dst, ("cond", c, a, b)))
     if k == "hyb_stmt":
-        env.busy = set()
-        names = [n for n in sorted(env.vars) if env.vars[n][1] >= 32 and not n.startswith("__")]
-        if not names:
-            return ("empty",)
-        return ("expr", ("post", draw(st.sampled_from(["++", "--"])), ("var", draw(st.sampled_from(names)))))
+        return _hyb_stmt(draw, env)
     raise AssertionError(k)
+
+
+def _hyb_stmt(draw, env, protect=frozenset(), reads=None):
+    """a value-producing operation used as a statement (value unused): v++; v--; ({ v = v + e; v; });
+    `reads`: a variable the statement-expression form should read (a loop counter)"""
+    f = env.features
+    env.busy = set()
+    names = [n for n in sorted(env.vars) if env.vars[n][1] >= 32 and not n.startswith("__") and n not in protect
+             and n not in getattr(env, "readonly", ())]
+    if not names:
+        return ("empty",)
+    if "hyb_stmtexpr" in f and draw(st.integers(0, 2 if reads is None else 1)) == 0:
+        # statement-expression whose value is not used: ({ v = v + e; v; });  (e may read a loop counter)
+        v = draw(st.sampled_from(names))
+        env.busy.add(v)
+        e = draw(expr(env, 1, False))
+        if reads is not None and draw(st.integers(0, 3)) > 0:
+            e = ("bin", "+", ("bin", "*", ("var", v), num(3)), ("cast", env.vars[v], ("var", reads))) if draw(st.booleans()) else ("cast", env.vars[v], ("var", reads))
+        rhs = ("bin", draw(st.sampled_from(["+", "^", "-"])), ("var", v), e)
+        return ("expr", ("stmtexpr", [("expr", ("assign", "=", ("var", v), rhs))], ("var", v)))
+    return ("expr", ("post", draw(st.sampled_from(["++", "--"])), ("var", draw(st.sampled_from(names)))))
 
 
 @st.composite
@@ -559,7 +608,15 @@ def _assigns(node, names):
 def program(draw, features, depth=3, nest=2, lo=1, hi=6):
     """-> (ast, env). The program starts by giving every local it will read a value."""
     env = draw(env_strategy(features))
-    body = draw(stmts(env, depth, nest, lo, hi))
+    pre = []
+    if features & {"compound_assign_narrow", "unbraced", "chain_assign"} and draw(st.booleans()):
+        # a few locals up front, so that later statements have something to update in place
+        for _ in range(draw(st.integers(1, 2))):
+            t = draw(st.sampled_from(_types(env)))
+            n = env.fresh()
+            pre.append(("decl", t, n, draw(expr(env, 1, False)), False))
+            env.vars[n] = t
+    body = pre + draw(stmts(env, depth, nest, lo, hi))
     body = [s for s in body]
     # observers: the final value of every top-level local becomes visible in memory
     k_ = 0
